@@ -189,7 +189,8 @@ class Report:
         self.findings = []    # violations (Finding)
         self.notes = []       # free text lines for evidence
         self.assumptions = []
-        self.floors = {}      # rule -> minimum number of instances
+        self.floors = {}
+        self.ceilings = {}      # rule -> minimum number of instances
         self.sources = Sources()
         self.extra_cov = {}
         self.distinct = set()
@@ -251,8 +252,19 @@ class Report:
         if not cond:
             raise AnalysisError(msg)
 
+    def ceiling(self, rule, n):
+        """at most n unverified instances of this rule (what the analyser does not understand
+        today); more means the code moved away from what is understood: not a silent pass"""
+        self.ceilings[rule] = n
+
     # -- finishing -----------------------------------------------------------------------
     def finish(self):
+        for rule, n in self.ceilings.items():
+            got = self.rules.get(rule, {}).get("unverified", 0)
+            if got > n and not self.findings:
+                why = "; ".join(x for x in self.notes if x.startswith("UNVERIFIED " + rule))[:400]
+                raise AnalysisError(f"rule {rule}: {got} instance(s) could not be interpreted "
+                                    f"(at most {n} expected): {why}")
         for rule, n in self.floors.items():
             got = self.rules[rule]["instances"]
             if got < n:
